@@ -476,8 +476,11 @@ func liveEvalDump(r *core.Run, c *liveCase) {
 }
 
 // liveRounds runs n rounds of churn + dump + compare.
-func liveRounds(r *core.Run, n int) {
-	for round := 0; round < n; round++ {
+func liveRounds(r *core.Run, n int) { liveRoundsFrom(r, 0, n) }
+
+// liveRoundsFrom runs rounds [start, start+n).
+func liveRoundsFrom(r *core.Run, start, n int) {
+	for round := start; round < start+n; round++ {
 		rr := core.NewRand(r.Seed, 77, uint64(round))
 		w := startLive(rr)
 		// churn: short-lived goroutines being created and exiting.
@@ -530,7 +533,7 @@ func liveRounds(r *core.Run, n int) {
 			r.Count("live_rounds_not_settled", 1)
 		}
 		liveEvalDump(r, c)
-		if round == 0 {
+		if round == start && start == 0 {
 			r.Sample(map[string]any{"live_dump_head": b2s(c.Raw, 1200), "known": len(c.Known)})
 		}
 		close(stopChurn)
